@@ -92,10 +92,13 @@ static RunResult run_c01(const RunSpec &spec) {
         if (out.rc != CIF_OK) DVIOLATE("rc", strprintf("cif_parse:%s", rc_name(out.rc)), "parsing a well-formed CIF %s document returned %s (errors: %s); text: %s", p.cfg.version >= 2 ? "2.0" : "1.1", rc_name(out.rc), errs_str(out.errs).c_str(), snippet(p.lay).c_str());
         if (!out.errs.empty()) DVIOLATE("spurious_error", rc_name(out.errs[0].code), "parsing a well-formed CIF %s document reported %s; text: %s", p.cfg.version >= 2 ? "2.0" : "1.1", errs_str(out.errs).c_str(), snippet(p.lay).c_str());
         if (!out.cif) DVIOLATE("rc", "no_cif", "cif_parse returned CIF_OK without creating a CIF");
+        std::vector<std::string> classify; g_classify_problems = &classify;
         MCif got = dump_cif(out.cif, prop), want = expected_model(p.doc);
+        g_classify_problems = NULL;
         std::string a = canon(want), b = canon(got);
         if (a != b) DVIOLATE("content", strprintf("v%d", p.cfg.version), "parsed content differs from what the document denotes: %s; text: %s", first_diff(a, b).c_str(), snippet(p.lay).c_str());
-    } catch (Violation &v) { bad.reset(new Violation(v)); }
+        if (!classify.empty()) DVIOLATE("content", "number_classification", "%s; text: %s", classify[0].c_str(), snippet(p.lay).c_str());
+    } catch (Violation &v) { g_classify_problems = NULL; bad.reset(new Violation(v)); }
     if (out.cif) { int rc = cif_destroy(out.cif); if (rc != CIF_OK && !bad) bad.reset(new Violation("C01.rc", "cif_destroy", "cif_destroy failed", -1)); }
     if (bad) throw *bad;
     g_stats.inc(p.cfg.version >= 2 ? "docs.cif20" : "docs.cif11");
@@ -130,7 +133,7 @@ void doc_corrupt(std::vector<unsigned char> &b, Rng &r, const Layout *lay) {
             const char *t = P[r.below(sizeof P / sizeof P[0])]; b.insert(b.begin() + (long) pos, (const unsigned char *) t, (const unsigned char *) t + strlen(t)); g_stats.inc("fault.corrupt.defective_construct"); break;
         }
         case 0: b[pos] ^= (unsigned char) (1u << r.below(8)); g_stats.inc("fault.corrupt.bitflip"); break;
-        case 1: { static const unsigned char S[] = { 0, 1, 0x0b, 0x0c, 0x0d, 0x1a, 0x7f, 0x80, 0xc0, 0xed, 0xf8, 0xfe, 0xff, '\'', '"', ';', '[', '{', ']', '}', ':', '\\', '#', '_', '$' }; b[pos] = S[r.below(sizeof S)]; g_stats.inc("fault.corrupt.replace"); break; }
+        case 1: { static const unsigned char S[] = { 0, 1, 0x0b, 0x0c, 0x0d, 0x1a, 0x7f, 0x80, 0xc0, 0xed, 0xf8, 0xfe, 0xff, 0xae, 0xd2, 0xa0, 0xfd, '\'', '"', ';', '[', '{', ']', '}', ':', '\\', '#', '_', '$' }; b[pos] = S[r.below(sizeof S)]; g_stats.inc("fault.corrupt.replace"); break; }
         case 2: { size_t n = std::min(b.size() - pos, (size_t) r.range(1, 40)); b.erase(b.begin() + (long) pos, b.begin() + (long) (pos + n)); g_stats.inc("fault.corrupt.delete"); break; }
         case 3: { size_t n = std::min(b.size() - pos, (size_t) r.range(1, 60)); std::vector<unsigned char> seg(b.begin() + (long) pos, b.begin() + (long) (pos + n)); b.insert(b.begin() + (long) pos, seg.begin(), seg.end()); g_stats.inc("fault.corrupt.duplicate"); break; }
         case 4: { size_t from = (size_t) r.below(b.size()); size_t n = std::min(b.size() - from, (size_t) r.range(1, 60)); std::vector<unsigned char> seg(b.begin() + (long) from, b.begin() + (long) (from + n)); b.insert(b.begin() + (long) pos, seg.begin(), seg.end()); g_stats.inc("fault.corrupt.splice"); break; }
@@ -144,7 +147,8 @@ static void gen_opts(ParseOpts &o, Rng &r) {
     o.fold_mod = (int) r.range(-1, 1); o.prefix_mod = (int) r.range(-1, 1);
     // (the documentation allows 7-bit ASCII characters and C1 controls in both sets: bytes >= 0x80 are legitimate here)
     static const char *const XS[] = { NULL, NULL, "\v", "\f", "\v\f\x1c", "\x85", "\x1c\x80\x85\x9f" }; o.extra_ws = XS[r.below(7)]; o.extra_eol = XS[r.below(7)];
-    static const char *const EN[] = { NULL, NULL, NULL, "ISO-8859-1", "UTF-16LE", "no-such-encoding", "UTF-8" }; o.default_encoding = EN[r.below(7)];
+    // (ISO-8859-7, windows-1253, Shift_JIS: legacy code pages with unassigned byte values - the converter's "unassigned" signal, CIF_UNMAPPED_CHAR)
+    static const char *const EN[] = { NULL, NULL, NULL, "ISO-8859-1", "UTF-16LE", "no-such-encoding", "UTF-8", "ISO-8859-7", "windows-1253", "Shift_JIS" }; o.default_encoding = EN[r.below(10)];
     o.force_default = r.chance(1, 5) ? 1 : 0;
     o.null_options = r.chance(1, 12);
     o.policy = (int) r.weighted({15, 35, 10, 40});
